@@ -116,7 +116,7 @@ func TestP1Budget(t *testing.T) {
 	rec.Rule("terminating deterministic programs (control-flow programs of the C03 generator and data programs of the C02 generator, with or without a final error) are run without budget -> (ops, state, error); then with MaxOps = N for every N in 1..ops+2 (all cut points when ops <= 400, 200 evenly spaced plus ops-1..ops+2 otherwise) on a fresh interpreter: N >= ops must reproduce state, error and NumOps exactly; N < ops must return ErrExecutionLimitExceeded (identity) with NumOps == N+1. Non-trivial: ops >= 10 and the program contains a loop or a procedure call; distinct by program text.")
 	over := overCount(rec)
 	cfg := psgen.Config{TypeLiteral: true}
-	ev.SetupRapid(1600, 64000)
+	ev.SetupRapid(6000, 160000)
 	rapid.Check(t, func(t *rapid.T) {
 		var text string
 		var feat map[string]bool
@@ -312,7 +312,7 @@ func TestP2Limits(t *testing.T) {
 	var raws [][]byte
 	// draw the instances with rapid (deterministic per seed), run them in one
 	// child afterwards
-	ev.SetupRapid(180, 3200)
+	ev.SetupRapid(400, 4800)
 	count := 0
 	rapid.Check(t, func(t *rapid.T) {
 		count++
